@@ -141,6 +141,80 @@ theorem C14_repr_key_counterexample :
   simp only [ckeyEq, valLang, Bool.and_eq_true, beq_iff_eq] at h
   exact h.1
 
+/-! ### context-relative hints (`typing.Self`, stringified forward references): never cached under a context-free key -/
+
+/-- **The cacheability flag accumulates over the whole tree**: `HintTreeCode.is_check_expr_cacheable` (`True` at
+    the root, `&=` with every sanified hint) is `True` exactly when NO hint of the tree is context-relative —
+    whatever the visiting order and wherever the context-relative hint sits among its siblings. -/
+theorem C14_tree_flag_accumulates (visit : List Bool) :
+    treeCacheable visit = true ↔ ∀ r ∈ visit, r = false := by
+  rw [treeCacheable_eq]
+  simp [mentionsRel]
+
+/-- **An expression whose tree mentions a context-relative hint anywhere is never cached under a context-free
+    key.** After EVERY history of queries asked from any contexts (classes being decorated, caller scopes) and
+    cache clears, every key of the checker / expression table belongs to a hint whose tree mentions no
+    context-relative hint (`==` hints have trees that agree on that: `hrel`). -/
+theorem C14_context_relative_never_cached (L : Lang V) (visit : V → List Bool) (f : Nat → CKey V → A)
+    (hrel : ∀ a b, L.pyEq a b = true → mentionsRel (visit a) = mentionsRel (visit b))
+    (hist : List (COp V)) (k : CKey V) (a : A)
+    (hm : (k, a) ∈ (runC L visit treeCacheable true f hist).checker) : mentionsRel (visit k.1) = false :=
+  foldl_stepC_free hrel hist (by intro k v h; simp [BearState.empty] at h) k a hm
+
+/-- **Memoisation is invisible across contexts.** `f c q` is what a fresh interpreter answers to `q` asked from
+    context `c`. If in every context `==` keys mean the same (`hc`) and a hint whose tree mentions no
+    context-relative hint means the same in every context (`hctx`), then after every history of queries asked
+    from ANY contexts, in any order, the answer to `q` from context `c` is the fresh answer `f c q` — in
+    particular not the answer an equal hint got in another class or scope before. -/
+theorem C14_context_pipeline_invisible (L : Lang V) (visit : V → List Bool) (f : Nat → CKey V → A)
+    (hc : ∀ c, KeyCongruent (f c) (ckeyEq L))
+    (hrel : ∀ a b, L.pyEq a b = true → mentionsRel (visit a) = mentionsRel (visit b))
+    (hctx : ∀ c c' k, mentionsRel (visit k.1) = false → f c k = f c' k)
+    (hist : List (COp V)) (c : Nat) (q : CKey V) :
+    answerC L visit treeCacheable true f (runC L visit treeCacheable true f hist) c q = f c q :=
+  (askBearC_spec hc hrel hctx
+    (foldl_stepC_inv hc hrel hctx hist (by intro k v h; simp [BearState.empty] at h)) c q (coerce_checked L _ _)).1
+
+/-- On histories asked from one context over context-free trees the contextual pipeline IS the plain pipeline
+    (`askBear`): the theorems above extend `C14_checker_pipeline_invisible`, they do not replace it. -/
+theorem C14_context_free_is_plain_pipeline (L : Lang V) (visit : V → List Bool) (acc : List Bool → Bool) (checked : Bool)
+    (f : Nat → CKey V → A) (hall : ∀ v, acc (visit v) = true) (s : BearState V A) (c : Nat) (q : CKey V) :
+    askBearC L visit acc checked f s c q = askBear L checked (f c) s q := by
+  simp [askBearC, askBear, hall]
+
+/-- `tuple[Self, int]`: root, `Self` (context-relative), `int` in visiting order -/
+private def selfPair : Val :=
+  { uid := 1, eqc := 1, rep := "tuple[typing.Self, int]", hashable := true, worthy := true, visit := [false, true, false] }
+/-- the checker built in context `c` tests membership in class `c` where the tree says `Self` -/
+private def ctxMeaning (c : Nat) (k : CKey Val) : Nat := if mentionsRel k.1.visit then c else 0
+
+/-- **Negation witness for "the flag of the hint sanified last wins"** (`=` instead of `&=` in
+    `sanify_hint_child`): the tree of `tuple[Self, int]` is then called cacheable (the control `tuple[int, Self]`
+    is not), the checker built for class 1 is stored under the context-free key, and the equal hint of class 2
+    is answered with the checker of class 1; the accumulated flag answers class 2 with its own checker. -/
+theorem C14_last_child_wins_counterexample :
+    treeCacheableLast selfPair.visit = true ∧ treeCacheable selfPair.visit = false ∧
+    treeCacheableLast [false, false, true] = false ∧
+    answerC valLang (·.visit) treeCacheableLast true ctxMeaning
+      (runC valLang (·.visit) treeCacheableLast true ctxMeaning [.ask 1 (selfPair, 0)]) 2 (selfPair, 0) = 1 ∧
+    ctxMeaning 2 (selfPair, 0) = 2 ∧
+    answerC valLang (·.visit) treeCacheable true ctxMeaning
+      (runC valLang (·.visit) treeCacheable true ctxMeaning [.ask 1 (selfPair, 0)]) 2 (selfPair, 0) = 2 := by
+  decide
+
+/-- the hypotheses of `C14_context_pipeline_invisible` are satisfiable by a system in which contexts matter:
+    `ctxMeaning` over `Val`s whose `==` class determines their tree -/
+example :
+    (∀ c, KeyCongruent (ctxMeaning c) (ckeyEq { valLang with pyEq := fun a b => a == b })) ∧
+    (∀ c c' k, mentionsRel (Val.visit k.1) = false → ctxMeaning c k = ctxMeaning c' k) ∧
+    ctxMeaning 1 (selfPair, 0) ≠ ctxMeaning 2 (selfPair, 0) := by
+  refine ⟨?_, ?_, by decide⟩
+  · intro c k k' h
+    simp only [ckeyEq, Bool.and_eq_true, beq_iff_eq] at h
+    simp [ctxMeaning, h.1]
+  · intro c c' k h
+    simp [ctxMeaning, h]
+
 /-! ### `KeyCongruent` for the `==` discipline, discharged for a concrete hint language -/
 
 /-- the checker a fresh interpreter builds for `(hint, conf/prefix tag)`: the set of objects it accepts -/
@@ -313,6 +387,13 @@ theorem C14_table_sites :
 theorem C14_table_tables :
     Extracted.memoTables.all (fun t => disciplineProved t.2 || t.2 == "fwdref") = true ∧
     (Extracted.memoTables.filter (fun t => t.2 == "fwdref")).length = 2 := by decide
+
+/-- **The tree-wide cacheability flag is and-accumulated and guards every store** into the checker / expression
+    tables, as read from the source on this run (`sanify_hint_child`, `make_check_expr`, `make_func_checker`):
+    the model the theorems above are about (`treeCacheable`) is the one the code implements. Breaks when the
+    accumulation becomes a plain assignment ("last") or a store loses its guard. -/
+theorem C14_table_tree_flag :
+    Extracted.memoTreeFlag = "and" ∧ Extracted.memoCtxStoresGuarded = true := by decide
 
 /-! ### non-vacuity: the hypotheses are satisfiable by non-trivial states -/
 
